@@ -31,11 +31,11 @@ def cost_hash(rec):
     return c
 
 
-def write_cfg(R, name, constants, invariants):
+def write_cfg(R, name, constants, invariants, nxt="Next"):
     """instantiate an object machine with run-time constants; returns the cfg path"""
     p = os.path.join(R.work, name + ".cfg")
     with open(p, "w") as f:
-        f.write("CONSTANTS " + "  ".join("%s = %s" % kv for kv in constants.items()) + "\nINIT Init\nNEXT Next\n")
+        f.write("CONSTANTS " + "  ".join("%s = %s" % kv for kv in constants.items()) + "\nINIT Init\nNEXT %s\n" % nxt)
         for i in invariants:
             f.write("INVARIANT %s\n" % i)
         f.write("CHECK_DEADLOCK FALSE\n")
